@@ -1,4 +1,4 @@
-import HgVerif.Model.Dispatch
+import HgVerif.Model.DispatchVar
 import HgVerif.Driver.Proto
 /-! Model driver for C19: same line protocol as `harness/drv_dispatch.cpp` (syntax documented there). -/
 open HgVerif.Dispatch HgVerif.Driver
@@ -220,25 +220,32 @@ def showCands (l : List (String × Nat)) : String :=
 /-! ### the protocol -/
 structure DS where
   syms : Array String := #[]
-  family : List Overload := []
-  perms : List (List Overload) := []
+  family : List VOverload := []
+  perms : List (List VOverload) := []
 
-def parseParams (syms : Array String) : List String → Option (List Param × Array String × List String)
+/-- the parameter words up to `->`: the fixed parameters, the tail pattern of a variadic candidate (`*ts:<tp>`, only
+    as the LAST parameter), the symbol table, the words behind `->` -/
+def parseParams (syms : Array String) :
+    List String → Option (List Param × Option TP × Array String × List String)
   | [] => none
-  | "->" :: rest => some ([], syms, rest)
+  | "->" :: rest => some ([], none, syms, rest)
   | w :: rest =>
-    if w.startsWith "ts:" then
+    if w.startsWith "*ts:" then
+      match parseAll parseTP syms (w.drop 4).toString, rest with
+      | some (p, syms), "->" :: rest' => some ([], some p, syms, rest')
+      | _, _ => none
+    else if w.startsWith "ts:" then
       match parseAll parseTP syms (w.drop 3).toString with
       | some (p, syms) =>
         match parseParams syms rest with
-        | some (ps, syms, tail) => some (.input p :: ps, syms, tail)
+        | some (ps, tl, syms, tail) => some (.input p :: ps, tl, syms, tail)
         | none => none
       | none => none
     else if w.startsWith "sc:" then
       match parseAll parseSP syms (w.drop 3).toString with
       | some (p, syms) =>
         match parseParams syms rest with
-        | some (ps, syms, tail) => some (.scalar p :: ps, syms, tail)
+        | some (ps, tl, syms, tail) => some (.scalar p :: ps, tl, syms, tail)
         | none => none
       | none => none
     else none
@@ -256,25 +263,27 @@ def parseArgs (syms : Array String) : List String → Option (List Arg × Array 
       | none => none
     else none
 
-/-- scalar → const promotion would be needed: outside the model -/
-def unsupported (family : List Overload) (args : List Arg) : Bool :=
-  family.any fun o =>
-    o.params.length == args.length &&
+/-- scalar → const promotion into a FIXED time-series parameter would be needed: outside the model
+    (a plain value in a variadic tail is modelled: `scPromote`) -/
+def unsupported (family : List VOverload) (args : List Arg) : Bool :=
+  family.any fun vo =>
+    let o := vo.ov
+    (if vo.tail.isSome then decide (o.params.length ≤ args.length) else o.params.length == args.length) &&
       (o.params.zip args).any fun pa =>
         match pa with
         | (.input _, .sc _) => true
         | _ => false
 
-def showEvent (syms : Array String) (os : List Overload) (args : List Arg) (sel : Option Survivor)
+def showEvent (syms : Array String) (os : List VOverload) (args : List Arg) (sel : Option Survivor)
     (amb : List Survivor) : String :=
-  let rej := (os.filterMap (rejectedOf args)).map fun p => (symName syms p.1, p.2)
+  let rej := (os.filterMap (rejectedOfV args)).map fun p => (symName syms p.1, p.2)
   let selS := match sel with
     | some s => s!"{symName syms s.ov.label}:{s.rank}"
     | none => "-"
   s!" ev=sel:{selS};rej:{showCands rej};amb:{showCands (amb.map fun s => (symName syms s.ov.label, s.rank))}"
 
-def showOutcome (syms : Array String) (os : List Overload) (args : List Arg) : String :=
-  match resolveCall os args with
+def showOutcome (syms : Array String) (os : List VOverload) (args : List Arg) : String :=
+  match resolveCallV os args with
   | .noMatch => "err:no-match" ++ showEvent syms os args none []
   | .ambiguous tied => "err:ambiguous" ++ showEvent syms os args none tied
   | .winner s out =>
@@ -287,10 +296,10 @@ def showOutcome (syms : Array String) (os : List Overload) (args : List Arg) : S
       | some _, none => "null"
     s!"win:{symName syms s.ov.label}:{s.rank} ts{ts} sc{sc} sz{sz} out={o}" ++ showEvent syms os args (some s) []
 
-def showSolo (syms : Array String) (args : List Arg) (o : Overload) : String :=
-  match survivorOf args o with
-  | some s => s!" {symName syms o.label}=ok:{s.rank}"
-  | none => s!" {symName syms o.label}=rej"
+def showSolo (syms : Array String) (args : List Arg) (o : VOverload) : String :=
+  match survivorOfV args o with
+  | some s => s!" {symName syms o.ov.label}=ok:{s.rank}"
+  | none => s!" {symName syms o.ov.label}=rej"
 
 def step (d : DS) (ws : List String) : DS × String :=
   match ws with
@@ -299,7 +308,7 @@ def step (d : DS) (ws : List String) : DS × String :=
   | "ov" :: label :: rest =>
     if rest.length < 2 then (d, "bad-op") else
     match parseParams d.syms rest with
-    | some (ps, syms, outW :: kwWs) =>
+    | some (ps, tl, syms, outW :: kwWs) =>
       let outR : Option (Option TP × Array String) :=
         if outW == "-" then some (none, syms)
         else (parseAll parseTP syms outW).map fun (p, syms) => (some p, syms)
@@ -318,17 +327,17 @@ def step (d : DS) (ws : List String) : DS × String :=
         | some (kw, syms) =>
           match (intern label).run { syms := syms, rest := [] } with
           | some (l, st) =>
-            if d.family.any (fun o => o.label == l) then (d, "bad-op")
+            if d.family.any (fun o => o.ov.label == l) then (d, "bad-op")
             else
-              let o : Overload := { label := l, params := ps, out := out, kw := kw }
-              ({ d with syms := st.syms, family := d.family ++ [o] }, s!"ok {operatorRank ps}")
+              let o : VOverload := { ov := { label := l, params := ps, out := out, kw := kw }, tail := tl }
+              ({ d with syms := st.syms, family := d.family ++ [o] }, s!"ok {baseRank o}")
           | none => (d, "bad-op")
         | none => (d, "bad-op")
       | none => (d, "bad-op")
     | _ => (d, "bad-op")
   | ["perm"] => (d, "bad-op")
   | "perm" :: labels =>
-    let chosen := labels.map fun l => d.family.find? fun o => symName d.syms o.label == l
+    let chosen := labels.map fun l => d.family.find? fun o => symName d.syms o.ov.label == l
     if chosen.all Option.isSome then
       ({ d with perms := d.perms ++ [chosen.filterMap id] }, "ok")
     else (d, "bad-op")
